@@ -458,6 +458,13 @@ fn main() {
               let p2 = replace_module(&project, &mname, new_text.clone());
               candidates.push((kind, site.clone(), p2, format!("# rewrite {kind}: {site} (module {mname})\n# ---- rewritten module ----\n{new_text}\n# ---- original module ----\n{mtext}")));
             }
+            if label.starts_with("generic zoo") {
+              // spellings the generator knows to be equivalent (available for rejected bases too)
+              for (kind, new_text) in vcore::exprgen::generic_zoo_equivalents(&mtext) {
+                let p2 = replace_module(&project, &mname, new_text.clone());
+                candidates.push((kind, "generator-known equivalent spelling".to_string(), p2, format!("# rewrite {kind} (module {mname})\n# ---- rewritten module ----\n{new_text}\n# ---- original module ----\n{mtext}")));
+              }
+            }
             for (site, p2) in split_rewrites(&mname, &mtext, &project, &mut rng, per_kind) {
               let all_parse = p2.modules.iter().filter(|m| !m.0.starts_with("std.")).all(|m| vcore::fmtcheck::parse(&m.1).map(|p| p.syntax_errors.is_empty()).unwrap_or(false));
               if !all_parse {
